@@ -226,18 +226,24 @@ func (ro *Roles) slotEnd(r *Report, rule string) {
 // ---------------------------------------------------------------------------------
 // C15.1 SCHEDULABLE agreement
 
-func (ro *Roles) schedulableAgreement(r *Report, rule string) {
-	w := ro.w
-	is := w.FuncByName("", "(*PipelineRunner).isSchedulable")
-	if is == nil {
-		// role: bool function of a pipeline name that calls the admission function
-		for _, fn := range ro.rootFuncs() {
-			if fn != ro.Accept && fn.Signature.Results().Len() == 1 && fn.Signature.Results().At(0).Type().String() == "bool" &&
-				len(findCalls(fn, func(_ string, c *ssa.CallCommon) bool { return c.StaticCallee() == ro.Admit })) > 0 {
-				is = fn
-			}
+// schedulableFn: the bool function of a pipeline name that calls the admission function.
+func (ro *Roles) schedulableFn() *ssa.Function {
+	if is := ro.w.FuncByName("", "(*PipelineRunner).isSchedulable"); is != nil {
+		return is
+	}
+	var is *ssa.Function
+	for _, fn := range ro.rootFuncs() {
+		if fn != ro.Accept && fn.Signature.Results().Len() == 1 && fn.Signature.Results().At(0).Type().String() == "bool" &&
+			len(findCalls(fn, func(_ string, c *ssa.CallCommon) bool { return c.StaticCallee() == ro.Admit })) > 0 {
+			is = fn
 		}
 	}
+	return is
+}
+
+func (ro *Roles) schedulableAgreement(r *Report, rule string) {
+	w := ro.w
+	is := ro.schedulableFn()
 	if !ro.need(r, rule, map[string]*ssa.Function{"schedulable predicate": is, "accept function": ro.Accept, "admission function": ro.Admit}) {
 		return
 	}
@@ -340,7 +346,11 @@ func (ro *Roles) runningAgreement(r *Report, rule string) {
 		for _, m := range maps {
 			if m.Func == "ListPipelines" {
 				run, sch, pl := m.Get("Running"), m.Get("Schedulable"), m.Get("Pipeline")
-				okL = run != nil && sch != nil && pl != nil && strings.Contains(sch.Expr, "isSchedulable("+pl.Expr+")") && (strings.Contains(run.Expr, "isRunning("+pl.Expr+")") || run.Expr == "running")
+				schedName, runName := "isSchedulable", ro.PipeRunning.Name()
+				if sf := ro.schedulableFn(); sf != nil {
+					schedName = sf.Name()
+				}
+				okL = run != nil && sch != nil && pl != nil && strings.Contains(sch.Expr, schedName+"("+pl.Expr+")") && (strings.Contains(run.Expr, runName+"("+pl.Expr+")") || run.Expr == "running")
 			}
 		}
 		r.Check(okL, rule+".listed", "ListPipelines: Running/Schedulable of the listed pipeline", w.Pos(lp.Pos()), "both flags are computed for the pipeline they are reported for", "ListPipelines reports flags computed for another pipeline or by other predicates")
